@@ -43,6 +43,13 @@ CLAIMED = {
         "note": "Trusted: the isolated render of the same code as reference (differential); GIL atomicity below source-line / bytecode granularity; SimLock = threading.Lock semantics; purity of the generated data callables. Known finding KF-C29-1 (state in cached import modules) is tolerated only for generator-tagged programs and only if a fresh Environment per render removes the mismatch.",
         "design": "DESIGN.md §4 C29, §3.3",
     },
+    "C25": {
+        "level": "exploration",
+        "technique": "deterministic simulation: real Environment over simulated loader storage, file system and clock (forward / held / backwards), seeded operation histories with injected I/O errors, checked against an executable reference cache model",
+        "text": "Seeded histories (get, select, modify, delete, add, loader swap, clock tick forward/held/backwards, gc) drive a real Environment whose loaders read a simulated store / file system stamped by a simulated clock; each operation's observable result (which source version rendered, TemplateNotFound, cache length) is compared with a reference model of the cache for cache sizes 0/1/2/3/-1/400, both reload settings and four loader kinds; a separate configuration arms an EIO on one operation's open/getmtime and checks strictly again afterwards. Sampling of histories, not enumeration.",
+        "note": "Trusted: the reference model in props/c25.py (about 60 lines) as the statement of documented cache behaviour; it is compared only through observables, never private fields. Held-clock rewrites accept either version until the next change. Multi-directory search paths and ChoiceLoader shadowing are outside the property's quantifier and not covered.",
+        "design": "DESIGN.md §4 C25, §3.5",
+    },
 }
 
 PENDING_REASON = "check not built yet in this session (planned as a simulation check, DESIGN.md §4); not claimed until it exists"
